@@ -120,10 +120,10 @@ type ainterp struct {
 	revisit func(fn *ssa.Function, b *ssa.BasicBlock) string
 	// atReturn is called at a Return with the folded results; its outcome is recorded ("" = ignore).
 	atReturn func(fn *ssa.Function, ret *ssa.Return, res []aval, env *aenv) string
-	// foldCallees: module callees without an oracle are folded recursively when all their returns agree.
+	// foldCallees: module callees the oracle does not answer for are explored in place (see inlinable).
 	foldCallees bool
 	steps       int
-	depth       int
+	stack       []*ssa.Function
 	Overflow    bool
 }
 
@@ -138,48 +138,81 @@ func (it *ainterp) run(fn *ssa.Function, params []aval) map[string]int {
 		}
 	}
 	out := map[string]int{}
-	it.explore(fn, fn.Blocks[0], nil, env, out)
+	it.stack = []*ssa.Function{fn}
+	it.explore(fn, fn.Blocks[0], 0, nil, env, out, nil)
 	return out
 }
 
-func (it *ainterp) explore(fn *ssa.Function, b, prev *ssa.BasicBlock, env *aenv, out map[string]int) {
+// acont continues the caller's path after an inlined callee returned with results res.
+type acont func(env *aenv, res []aval)
+
+// inlinable: a same-module callee the oracle does not answer for is explored in place (path-sensitively,
+// with the stores it performs on the row's abstract objects kept), to depth 4, never recursively.
+func (it *ainterp) inlinable(call *ssa.Call) *ssa.Function {
+	if !it.foldCallees || len(it.stack) > 4 {
+		return nil
+	}
+	g := calleeFn(call)
+	if g == nil || g.Blocks == nil || fnPkg(g) == nil || !inModule(fnPkg(g).Path()) || len(g.FreeVars) != 0 {
+		return nil
+	}
+	for _, f := range it.stack {
+		if f == g {
+			return nil
+		}
+	}
+	if len(callArgs(call)) != len(g.Params) {
+		return nil
+	}
+	return g
+}
+
+// explore walks block b of fn from instruction idx along one path; branches whose condition does not fold
+// fork the path. k is the continuation of the enclosing call (nil in the top-level function).
+func (it *ainterp) explore(fn *ssa.Function, b *ssa.BasicBlock, idx int, prev *ssa.BasicBlock, env *aenv, out map[string]int, k acont) {
 	for {
 		if it.steps > ainterpMaxSteps {
 			it.Overflow = true
 			return
 		}
-		env.visits[b]++
-		env.trace = append(env.trace, b)
-		if env.visits[b] > 1 {
-			if it.revisit != nil {
-				if o := it.revisit(fn, b); o != "" {
-					out[o]++
-				}
-			}
-			return
-		}
-		// phis first, all evaluated against the incoming edge
-		var phiVals []aval
-		var phis []*ssa.Phi
+		nphi := 0
 		for _, in := range b.Instrs {
-			phi, ok := in.(*ssa.Phi)
-			if !ok {
+			if _, ok := in.(*ssa.Phi); !ok {
 				break
 			}
-			v := avU
-			for i, p := range b.Preds {
-				if p == prev {
-					v = it.eval(fn, phi.Edges[i], env)
-				}
-			}
-			phis = append(phis, phi)
-			phiVals = append(phiVals, v)
+			nphi++
 		}
-		for i, phi := range phis {
-			env.vals[phi] = phiVals[i]
+		if idx == 0 {
+			env.visits[b]++
+			env.trace = append(env.trace, b)
+			if env.visits[b] > 1 {
+				if it.revisit != nil {
+					if o := it.revisit(fn, b); o != "" {
+						out[o]++
+					}
+				}
+				return
+			}
+			// phis first, all evaluated against the incoming edge
+			phiVals := make([]aval, nphi)
+			for j := 0; j < nphi; j++ {
+				phi := b.Instrs[j].(*ssa.Phi)
+				v := avU
+				for i, p := range b.Preds {
+					if p == prev {
+						v = it.eval(fn, phi.Edges[i], env)
+					}
+				}
+				phiVals[j] = v
+			}
+			for j := 0; j < nphi; j++ {
+				env.vals[b.Instrs[j].(*ssa.Phi)] = phiVals[j]
+			}
+			idx = nphi
 		}
 		var next *ssa.BasicBlock
-		for _, in := range b.Instrs[len(phis):] {
+		for i := idx; i < len(b.Instrs); i++ {
+			in := b.Instrs[i]
 			it.steps++
 			if it.at != nil {
 				if o := it.at(fn, in, env, it); o != "" {
@@ -194,11 +227,15 @@ func (it *ainterp) explore(fn *ssa.Function, b, prev *ssa.BasicBlock, env *aenv,
 					env.stores[c09StoreKey{addr.Obj, addr.Field}] = it.eval(fn, x.Val, env)
 				}
 			case *ssa.Return:
+				var res []aval
+				for _, r := range x.Results {
+					res = append(res, it.eval(fn, r, env))
+				}
+				if k != nil {
+					k(env, res)
+					return
+				}
 				if it.atReturn != nil {
-					var res []aval
-					for _, r := range x.Results {
-						res = append(res, it.eval(fn, r, env))
-					}
 					if o := it.atReturn(fn, x, res, env); o != "" {
 						out[o]++
 					}
@@ -217,18 +254,65 @@ func (it *ainterp) explore(fn *ssa.Function, b, prev *ssa.BasicBlock, env *aenv,
 						next = b.Succs[1]
 					}
 				} else {
-					it.explore(fn, b.Succs[0], b, env.clone(), out)
+					it.explore(fn, b.Succs[0], 0, b, env.clone(), out, k)
 					next = b.Succs[1]
 				}
+			case *ssa.Call:
+				var args []aval
+				for _, a := range callArgs(x) {
+					args = append(args, it.eval(fn, a, env))
+				}
+				if it.oracle != nil {
+					if r, ok := it.oracle(fn, x, args); ok {
+						env.vals[x] = r
+						break
+					}
+				}
+				g := it.inlinable(x)
+				if g == nil {
+					env.vals[x] = avU
+					break
+				}
+				// fresh activation of g on this path
+				for _, gb := range g.Blocks {
+					delete(env.visits, gb)
+					for _, gi := range gb.Instrs {
+						if gv, ok := gi.(ssa.Value); ok {
+							delete(env.vals, gv)
+						}
+					}
+				}
+				for j, p := range g.Params {
+					env.vals[p] = args[j]
+				}
+				it.stack = append(append([]*ssa.Function{}, it.stack...), g)
+				depth := len(it.stack)
+				rest := i + 1
+				it.explore(g, g.Blocks[0], 0, nil, env, out, func(env2 *aenv, res []aval) {
+					saved := it.stack
+					it.stack = it.stack[:depth-1]
+					switch len(res) {
+					case 0:
+						env2.vals[x] = avU
+					case 1:
+						env2.vals[x] = res[0]
+					default:
+						env2.vals[x] = avT(res...)
+					}
+					it.explore(fn, b, rest, prev, env2, out, k)
+					it.stack = saved
+				})
+				it.stack = it.stack[:depth-1]
+				return
 			case ssa.Value:
-				// evaluate eagerly so that calls with side effects on stores are ordered (none folded today)
+				// evaluate eagerly so that every value is folded at its program point
 				it.eval(fn, x, env)
 			}
 		}
 		if next == nil {
 			return
 		}
-		prev, b = b, next
+		prev, b, idx = b, next, 0
 	}
 }
 
@@ -358,11 +442,6 @@ func (it *ainterp) eval1(fn *ssa.Function, v ssa.Value, env *aenv) aval {
 				return r
 			}
 		}
-		if it.foldCallees && it.depth < 4 {
-			if g := calleeFn(x); g != nil && g.Blocks != nil && fnPkg(g) != nil && inModule(fnPkg(g).Path()) && len(g.FreeVars) == 0 {
-				return it.foldCall(g, args)
-			}
-		}
 		return avU
 	case *ssa.Lookup, *ssa.TypeAssert, *ssa.Index, *ssa.Field, *ssa.IndexAddr, *ssa.Slice, *ssa.MakeMap, *ssa.MakeSlice, *ssa.MakeClosure, *ssa.Next, *ssa.Range:
 		if it.oracle != nil {
@@ -373,33 +452,6 @@ func (it *ainterp) eval1(fn *ssa.Function, v ssa.Value, env *aenv) aval {
 		return avU
 	}
 	return avU
-}
-
-// foldCall folds a module callee: the value all its returns agree on (single result), else unknown.
-// The callee must not write through its arguments for this to be meaningful; stores it performs are discarded.
-func (it *ainterp) foldCall(g *ssa.Function, args []aval) aval {
-	sub := &ainterp{oracle: it.oracle, foldCallees: true, depth: it.depth + 1, steps: it.steps}
-	var results []aval
-	sub.atReturn = func(_ *ssa.Function, _ *ssa.Return, res []aval, _ *aenv) string {
-		if len(res) == 1 {
-			results = append(results, res[0])
-		} else {
-			results = append(results, avT(res...))
-		}
-		return ""
-	}
-	sub.run(g, args)
-	it.steps = sub.steps
-	if sub.Overflow || len(results) == 0 {
-		return avU
-	}
-	first := results[0]
-	for _, r := range results[1:] {
-		if !avEqual(r, first) {
-			return avU
-		}
-	}
-	return first
 }
 
 func avEqual(a, b aval) bool {
@@ -485,4 +537,750 @@ func c09FoldBin(op token.Token, a, b aval) aval {
 		}
 	}
 	return avU
+}
+
+// ---------------------------------------------------------------------------
+// Calling contexts: following same-module helpers (value, boolean and effect helpers)
+//
+// The rules of C09/C08/C14 look for checks, stores and calls "in function f". A behaviour-preserving
+// refactoring may move any of them into an unexported helper (or inline one). The helpers below let a rule
+// walk into static same-module callees with the callee's parameters mapped back to the call's arguments.
+
+// cxDepth bounds helper following (DESIGN.md: inlining depth 4).
+const cxDepth = 4
+
+// cxFrame is a function in its calling context; up == nil for the anchored (top-level) function.
+type cxFrame struct {
+	fn   *ssa.Function
+	call ssa.CallInstruction // the call in up.fn that entered fn
+	up   *cxFrame
+	kids map[ssa.CallInstruction]*cxFrame // frames entered from this one (canonical: one per call instruction)
+}
+
+func cxTop(fn *ssa.Function) *cxFrame { return &cxFrame{fn: fn} }
+
+func (fr *cxFrame) depth() int {
+	d := 0
+	for f := fr; f.up != nil; f = f.up {
+		d++
+	}
+	return d
+}
+
+func (fr *cxFrame) active(g *ssa.Function) bool {
+	for f := fr; f != nil; f = f.up {
+		if f.fn == g {
+			return true
+		}
+	}
+	return false
+}
+
+// cxHelper: g is a same-module function with a body that can be entered from fr (no recursion, bounded depth).
+func (fr *cxFrame) cxHelper(g *ssa.Function) bool {
+	if g == nil || g.Blocks == nil || fr.active(g) || fr.depth() >= cxDepth {
+		return false
+	}
+	pk := fnPkg(g)
+	return pk != nil && inModule(pk.Path())
+}
+
+// enter returns the frame of the static callee of call (nil when it cannot be followed).
+func (fr *cxFrame) enter(call ssa.CallInstruction) *cxFrame {
+	g := calleeFn(call)
+	if !fr.cxHelper(g) {
+		return nil
+	}
+	if len(callArgs(call)) != len(g.Params) {
+		return nil
+	}
+	if k := fr.kids[call]; k != nil {
+		return k
+	}
+	k := &cxFrame{fn: g, call: call, up: fr}
+	if fr.kids == nil {
+		fr.kids = map[ssa.CallInstruction]*cxFrame{}
+	}
+	fr.kids[call] = k
+	return k
+}
+
+// cxVal is an SSA value in the frame it belongs to.
+type cxVal struct {
+	fr *cxFrame
+	v  ssa.Value
+}
+
+// resolve maps (through conversions) a parameter of a helper to the argument of the call that entered it,
+// repeatedly, and a free variable of a closure to its binding; everything else is returned unchanged.
+func (fr *cxFrame) resolve(v ssa.Value) cxVal {
+	cur := fr
+	for i := 0; i < 16; i++ {
+		v = stripConv(v)
+		switch x := v.(type) {
+		case *ssa.Parameter:
+			if cur.up == nil || cur.call == nil {
+				return cxVal{cur, v}
+			}
+			idx := -1
+			for k, p := range cur.fn.Params {
+				if p == x {
+					idx = k
+				}
+			}
+			args := callArgs(cur.call)
+			if idx < 0 || idx >= len(args) {
+				return cxVal{cur, v}
+			}
+			v, cur = args[idx], cur.up
+			continue
+		case *ssa.FreeVar:
+			if cur.up == nil || cur.call == nil {
+				return cxVal{cur, v}
+			}
+			mc, ok := cur.call.Common().Value.(*ssa.MakeClosure)
+			if !ok {
+				return cxVal{cur, v}
+			}
+			idx := -1
+			for k, p := range cur.fn.FreeVars {
+				if p == x {
+					idx = k
+				}
+			}
+			if idx < 0 || idx >= len(mc.Bindings) {
+				return cxVal{cur, v}
+			}
+			v, cur = mc.Bindings[idx], cur.up
+			continue
+		}
+		break
+	}
+	return cxVal{cur, v}
+}
+
+// cxOrigins: leaf origins of v as origins() computes them, continued through parameters (to the caller's
+// arguments) and through the results of same-module value helpers (to the returned expressions). A call that
+// keep() accepts is kept as a leaf and not entered.
+func cxOrigins(fr *cxFrame, v ssa.Value, keep func(*cxFrame, ssa.CallInstruction) bool) []cxVal {
+	return (*Prog)(nil).cxOriginsOK(fr, v, keep)
+}
+
+// cxOriginsOK is cxOrigins that, with a program at hand, ignores what a value helper returns next to a non-nil
+// error (the zero value of an error return is not an origin of the value the caller goes on to use).
+func (p *Prog) cxOriginsOK(fr *cxFrame, v ssa.Value, keep func(*cxFrame, ssa.CallInstruction) bool) []cxVal {
+	var out []cxVal
+	type key struct {
+		fn *ssa.Function
+		v  ssa.Value
+	}
+	seen := map[key]bool{}
+	var walk func(fr *cxFrame, v ssa.Value, d int)
+	walk = func(fr *cxFrame, v ssa.Value, d int) {
+		if d > 24 {
+			out = append(out, cxVal{fr, v})
+			return
+		}
+		for _, o := range origins(fr.fn, v) {
+			switch o.(type) {
+			case *ssa.Parameter, *ssa.FreeVar:
+				if r := fr.resolve(o); r.fr != fr {
+					k := key{r.fr.fn, r.v}
+					if !seen[k] {
+						seen[k] = true
+						walk(r.fr, r.v, d+1)
+					}
+					continue
+				}
+			}
+			call, idx := originCall(o)
+			if call != nil && (keep == nil || !keep(fr, call)) {
+				if sub := fr.enter(call); sub != nil {
+					rets := cxReturns(sub.fn)
+					if p != nil {
+						errRet := map[*ssa.Return]int{}
+						for _, r := range p.returnsOf(sub.fn) {
+							if r.Class == "error" && errRet[r.Ret] == 0 {
+								errRet[r.Ret] = 1
+							} else if r.Class != "error" {
+								errRet[r.Ret] = 2
+							}
+						}
+						var okRets []*ssa.Return
+						for _, r := range rets {
+							if errRet[r] != 1 {
+								okRets = append(okRets, r)
+							}
+						}
+						if len(okRets) > 0 {
+							rets = okRets
+						}
+					}
+					if len(rets) > 0 {
+						for _, ret := range rets {
+							if idx < len(ret.Results) {
+								k := key{sub.fn, ret.Results[idx]}
+								if !seen[k] {
+									seen[k] = true
+									walk(sub, ret.Results[idx], d+1)
+								}
+							}
+						}
+						continue
+					}
+				}
+			}
+			out = append(out, cxVal{fr, o})
+		}
+	}
+	walk(fr, v, 0)
+	return out
+}
+
+// cxReturns lists the Return instructions of fn.
+func cxReturns(fn *ssa.Function) []*ssa.Return {
+	var out []*ssa.Return
+	for _, b := range fn.Blocks {
+		if len(b.Instrs) > 0 {
+			if r, ok := b.Instrs[len(b.Instrs)-1].(*ssa.Return); ok {
+				out = append(out, r)
+			}
+		}
+	}
+	return out
+}
+
+// cxAtomFact classifies one branch-condition atom (in its frame): does the condition being true / false
+// establish the fact the rule is looking for?
+type cxAtomFact func(fr *cxFrame, a Atom) (onTrue, onFalse bool)
+
+// cxValueFact: does boolean v being true (resp. false) establish the fact? It looks through negation,
+// constants (vacuous), phis of booleans (every incoming value), parameters of helpers (the caller's argument)
+// and calls of same-module boolean helpers (every return that may yield that result lies behind a fact edge
+// inside the helper, or returns a value that itself establishes the fact).
+func (p *Prog) cxValueFact(fr *cxFrame, v ssa.Value, atom cxAtomFact, depth int) (tImp, fImp bool) {
+	return p.cxValueFactMemo(fr, v, atom, depth, map[ssa.Value]bool{})
+}
+
+func (p *Prog) cxValueFactMemo(fr *cxFrame, v ssa.Value, atom cxAtomFact, depth int, busy map[ssa.Value]bool) (tImp, fImp bool) {
+	if v == nil || depth < 0 || busy[v] {
+		return false, false
+	}
+	if u, ok := v.(*ssa.UnOp); ok && u.Op == token.NOT {
+		f, t := p.cxValueFactMemo(fr, u.X, atom, depth, busy)
+		return t, f
+	}
+	if k, ok := constBool(v); ok {
+		return !k, k // the impossible outcome implies anything
+	}
+	if t, f := atom(fr, condAtom(v)); t || f {
+		return t, f
+	}
+	switch x := v.(type) {
+	case *ssa.Phi:
+		busy[v] = true
+		defer delete(busy, v)
+		tImp, fImp = true, true
+		var base *Cuts
+		for i, e := range x.Edges {
+			t, f := p.cxValueFactMemo(fr, e, atom, depth, busy)
+			if !(t && f) && len(x.Block().Instrs) > 0 && i < len(x.Block().Preds) {
+				// the incoming edge itself may lie behind an edge that establishes the fact
+				// ("ok := a && b": the value false arrives over the a-false edge)
+				if base == nil {
+					base = cxBaseCuts(fr, atom)
+				}
+				if len(base.Edges) > 0 && findPath(entryPoint(fr.fn), Target{Instr: x.Block().Instrs[0], Pred: x.Block().Preds[i]}, base) == nil {
+					t, f = true, true
+				}
+			}
+			tImp, fImp = tImp && t, fImp && f
+		}
+		return tImp, fImp
+	case *ssa.Parameter, *ssa.FreeVar:
+		r := fr.resolve(v)
+		if r.fr != fr || r.v != v {
+			return p.cxValueFactMemo(r.fr, r.v, atom, depth, busy)
+		}
+	case *ssa.Call, *ssa.Extract:
+		// the boolean result (result #idx of a tuple) of a same-module helper
+		call, idx := originCall(v)
+		cc, isCall := call.(*ssa.Call)
+		if !isCall {
+			return false, false
+		}
+		sub := fr.enter(cc)
+		if sub == nil || depth == 0 || idx >= sub.fn.Signature.Results().Len() {
+			return false, false
+		}
+		cuts := p.cxFactCuts(sub, atom, depth-1)
+		tImp, fImp = true, true
+		n := 0
+		for _, ret := range cxReturns(sub.fn) {
+			if idx >= len(ret.Results) {
+				return false, false
+			}
+			type inc struct {
+				val  ssa.Value
+				pred *ssa.BasicBlock
+			}
+			incs := []inc{{ret.Results[idx], nil}}
+			if phi, ok := ret.Results[idx].(*ssa.Phi); ok && phi.Block() == ret.Block() {
+				incs = nil
+				for i, e := range phi.Edges {
+					incs = append(incs, inc{e, ret.Block().Preds[i]})
+				}
+			}
+			for _, in := range incs {
+				n++
+				behind := findPath(entryPoint(sub.fn), Target{Instr: ret, Pred: in.pred}, cuts) == nil
+				if behind {
+					continue
+				}
+				t, f := p.cxValueFactMemo(sub, in.val, atom, depth-1, busy)
+				tImp, fImp = tImp && t, fImp && f
+			}
+		}
+		if n == 0 {
+			return false, false
+		}
+		return tImp, fImp
+	}
+	return false, false
+}
+
+// cxBaseCuts: the edges of fr.fn on which the fact is established by the branch condition itself (no helper,
+// no local boolean): used to decide whether a control-flow edge lies behind the fact.
+func cxBaseCuts(fr *cxFrame, atom cxAtomFact) *Cuts {
+	cuts := newCuts()
+	for _, b := range fr.fn.Blocks {
+		ifi := blockIf(b)
+		if ifi == nil || len(b.Succs) != 2 {
+			continue
+		}
+		neg := false
+		v := ifi.Cond
+		for {
+			u, ok := v.(*ssa.UnOp)
+			if !ok || u.Op != token.NOT {
+				break
+			}
+			neg = !neg
+			v = u.X
+		}
+		t, f := atom(fr, condAtom(v))
+		if neg {
+			t, f = f, t
+		}
+		if t {
+			cuts.AddEdges(Edge{b, 0})
+		}
+		if f {
+			cuts.AddEdges(Edge{b, 1})
+		}
+	}
+	return cuts
+}
+
+// cxFactCuts returns the cut set of fr.fn for a fact: every branch edge on which the fact is established,
+// directly, through a boolean helper, or through a local boolean (a phi in the branching block: the edge is
+// cut only for the predecessors whose incoming value establishes the fact).
+func (p *Prog) cxFactCuts(fr *cxFrame, atom cxAtomFact, depth int) *Cuts {
+	cuts := newCuts()
+	for _, b := range fr.fn.Blocks {
+		ifi := blockIf(b)
+		if ifi == nil || len(b.Succs) != 2 {
+			continue
+		}
+		t, f := p.cxValueFact(fr, ifi.Cond, atom, depth)
+		if t {
+			cuts.AddEdges(Edge{b, 0})
+		}
+		if f {
+			cuts.AddEdges(Edge{b, 1})
+		}
+		if t && f {
+			continue
+		}
+		// per-predecessor facts of a boolean phi evaluated in this very block
+		neg := false
+		v := ifi.Cond
+		for {
+			u, ok := v.(*ssa.UnOp)
+			if !ok || u.Op != token.NOT {
+				break
+			}
+			neg = !neg
+			v = u.X
+		}
+		phi, ok := v.(*ssa.Phi)
+		if !ok || phi.Block() != b {
+			continue
+		}
+		for i, e := range phi.Edges {
+			if _, isC := constBool(e); isC {
+				continue // findPath already prunes the branch a constant incoming value cannot take
+			}
+			ti, fi := p.cxValueFact(fr, e, atom, depth)
+			if neg {
+				ti, fi = fi, ti
+			}
+			if ti && !t {
+				cuts.AddVia(b.Preds[i], Edge{b, 0})
+			}
+			if fi && !f {
+				cuts.AddVia(b.Preds[i], Edge{b, 1})
+			}
+		}
+	}
+	return cuts
+}
+
+// cxCallsDeep enumerates the call instructions of fr.fn and, transitively, of the same-module helpers it
+// calls (each in its own frame). enter decides whether a callee is walked into (after visit saw the call).
+func cxCallsDeep(fr *cxFrame, enter func(*cxFrame, ssa.CallInstruction) bool, visit func(*cxFrame, ssa.CallInstruction)) {
+	allInstrs(fr.fn, func(_ *ssa.BasicBlock, _ int, in ssa.Instruction) {
+		call, ok := in.(ssa.CallInstruction)
+		if !ok {
+			return
+		}
+		visit(fr, call)
+		if enter != nil && !enter(fr, call) {
+			return
+		}
+		if sub := fr.enter(call); sub != nil {
+			cxCallsDeep(sub, enter, visit)
+		}
+	})
+}
+
+// ---------------------------------------------------------------------------
+// must-pass summaries (copy of interproc.go's satisfyingCuts with one more idiom)
+
+// c09MustPassOnSuccess / c09SatisfyingCuts are p.mustPassOnSuccess / p.satisfyingCuts extended for
+// "return hit(...)": a direct hit whose error result is not tested but only handed to the function's own
+// return counts, because the function succeeds only if that call did.
+func (p *Prog) c09MustPassOnSuccess(f *ssa.Function, hit func(ssa.Instruction) bool, depth int, active map[*ssa.Function]bool) bool {
+	if f == nil || f.Blocks == nil || depth < 0 || active[f] {
+		return false
+	}
+	active[f] = true
+	defer delete(active, f)
+	cuts := p.c09SatisfyingCuts(f, hit, depth, active)
+	for _, t := range p.successTargets(f) {
+		if findPath(entryPoint(f), t.Target(), cuts) != nil {
+			return false
+		}
+	}
+	return true
+}
+
+func c09OnlyReturned(v ssa.Value) bool {
+	refs := v.Referrers()
+	if refs == nil {
+		return false
+	}
+	n := 0
+	for _, r := range *refs {
+		switch x := r.(type) {
+		case *ssa.DebugRef:
+		case *ssa.Return:
+			n++
+		case *ssa.Phi:
+			if !c09OnlyReturned(x) {
+				return false
+			}
+			n++
+		default:
+			return false
+		}
+	}
+	return n > 0
+}
+
+func (p *Prog) c09SatisfyingCuts(f *ssa.Function, hit func(ssa.Instruction) bool, depth int, active map[*ssa.Function]bool) *Cuts {
+	cuts := newCuts()
+	if active == nil {
+		active = map[*ssa.Function]bool{f: true}
+	}
+	allInstrs(f, func(_ *ssa.BasicBlock, _ int, in ssa.Instruction) {
+		call, isCall := in.(ssa.CallInstruction)
+		if hit(in) {
+			if v, ok := in.(ssa.Value); ok {
+				if succ, _, checked := callErrEdges(f, v); checked {
+					cuts.AddEdges(succ...)
+					return
+				} else if es := errResults(v); len(es) > 0 {
+					for _, e := range es {
+						if !c09OnlyReturned(e) {
+							return // error result dropped: the call does not count as "succeeded"
+						}
+					}
+				}
+			}
+			cuts.AddInstrs(in)
+			return
+		}
+		if !isCall {
+			return
+		}
+		g := calleeFn(call)
+		if g == nil || g.Blocks == nil || fnPkg(g) == nil || !inModule(fnPkg(g).Path()) {
+			return
+		}
+		if _, isGo := in.(*ssa.Go); isGo {
+			return
+		}
+		if !p.c09MustPassOnSuccess(g, hit, depth-1, active) {
+			return
+		}
+		if _, isDefer := in.(*ssa.Defer); isDefer {
+			cuts.AddInstrs(in)
+			return
+		}
+		v := call.Value()
+		if v != nil && len(errResults(v)) > 0 {
+			if succ, _, checked := callErrEdges(f, v); checked {
+				cuts.AddEdges(succ...)
+			} else {
+				cuts.AddInstrs(in)
+			}
+			return
+		}
+		cuts.AddInstrs(in)
+	})
+	return cuts
+}
+
+// ---------------------------------------------------------------------------
+// path search through helpers
+
+// cxPoint is a position in a calling context: before instruction idx of block b of frame fr.
+type cxPoint struct {
+	fr  *cxFrame
+	b   *ssa.BasicBlock
+	idx int
+}
+
+func cxEntry(fr *cxFrame) cxPoint { return cxPoint{fr, fr.fn.Blocks[0], 0} }
+
+func cxAfter(fr *cxFrame, in ssa.Instruction) cxPoint {
+	p := after(in)
+	return cxPoint{fr, p.Block, p.Idx}
+}
+
+// cxSearch is findPath over the control flow of a function with the same-module helpers it calls spliced in
+// (one frame per call instruction, bounded depth, no recursion): a call that expand accepts is followed into
+// the callee's entry, and the callee's returns continue after the call. Cuts and the target are predicates over
+// (frame, edge / instruction), so that a fact about a helper's parameter can be decided from the caller's argument.
+type cxSearch struct {
+	expand   func(fr *cxFrame, call ssa.CallInstruction) bool                // nil = every enterable helper
+	cutEdge  func(fr *cxFrame, e Edge) bool                                  // may be nil
+	cutVia   func(fr *cxFrame, pred *ssa.BasicBlock, e Edge) bool            // may be nil
+	cutInstr func(fr *cxFrame, in ssa.Instruction) bool                      // may be nil
+	target   func(fr *cxFrame, in ssa.Instruction, via *ssa.BasicBlock) bool // required
+	// errRet classifies a helper's return as an error return (optional): the caller is then continued only along
+	// the side on which the call failed.
+	errRet func(fn *ssa.Function, ret *ssa.Return, via *ssa.BasicBlock) bool
+}
+
+// cxErrOperand: the error-typed result operand of ret (the last one), or nil.
+func cxErrOperand(fn *ssa.Function, ret *ssa.Return) ssa.Value {
+	for i := len(ret.Results) - 1; i >= 0; i-- {
+		if isErrorType(ret.Results[i].Type()) {
+			return ret.Results[i]
+		}
+	}
+	return nil
+}
+
+// cxIsErrOf: v is the error result of call (the call itself, or an Extract of it).
+func cxIsErrOf(v ssa.Value, call ssa.CallInstruction) bool {
+	if call == nil || call.Value() == nil || v == nil {
+		return false
+	}
+	for _, e := range errResults(call.Value()) {
+		if e == v {
+			return true
+		}
+	}
+	return false
+}
+
+type cxNode struct {
+	fr  *cxFrame
+	b   *ssa.BasicBlock
+	idx int
+	via *ssa.BasicBlock
+	// failed: the call of this block (in fr) that the path left through an error return: its error result is
+	// non-nil, so the nil side of a test of it is not taken and a return handing it on is an error return
+	failed ssa.CallInstruction
+}
+
+// find returns the blocks of a path from start to an instruction the target accepts that passes no cut, or nil.
+func (s *cxSearch) find(start cxPoint) []*ssa.BasicBlock {
+	parent := map[cxNode]cxNode{}
+	seen := map[cxNode]bool{}
+	root := cxNode{fr: start.fr, b: start.b, idx: start.idx}
+	seen[root] = true
+	queue := []cxNode{root}
+	build := func(n cxNode) []*ssa.BasicBlock {
+		var path []*ssa.BasicBlock
+		for cur := n; ; {
+			if len(path) == 0 || path[len(path)-1] != cur.b {
+				path = append(path, cur.b)
+			}
+			if cur == root {
+				break
+			}
+			nx, ok := parent[cur]
+			if !ok {
+				break
+			}
+			cur = nx
+		}
+		for i, j := 0, len(path)-1; i < j; i, j = i+1, j-1 {
+			path[i], path[j] = path[j], path[i]
+		}
+		return path
+	}
+	push := func(from, to cxNode) {
+		if seen[to] {
+			return
+		}
+		seen[to] = true
+		parent[to] = from
+		queue = append(queue, to)
+	}
+	steps := 0
+	for len(queue) > 0 {
+		n := queue[0]
+		queue = queue[1:]
+		if steps++; steps > 200000 {
+			return build(n) // give up: report what was reached (fail closed)
+		}
+		stopped := false
+		for i := n.idx; i < len(n.b.Instrs) && !stopped; i++ {
+			in := n.b.Instrs[i]
+			if ret, isRet := in.(*ssa.Return); isRet {
+				// leaving through an error return: this return hands on the error of a call known to have
+				// failed, or the rule classifies it as one
+				isErr := n.failed != nil && cxIsErrOf(cxErrOperand(n.fr.fn, ret), n.failed)
+				if phi, ok := cxErrOperand(n.fr.fn, ret).(*ssa.Phi); ok && n.failed != nil && n.via != nil && phi.Block() == n.b {
+					for k, p := range n.b.Preds {
+						if p == n.via && cxIsErrOf(phi.Edges[k], n.failed) {
+							isErr = true
+						}
+					}
+				}
+				if !isErr && s.errRet != nil && s.errRet(n.fr.fn, ret, n.via) {
+					isErr = true
+				}
+				if isErr {
+					stopped = true
+					if n.fr.up != nil && n.fr.call != nil {
+						p := after(n.fr.call)
+						push(n, cxNode{fr: n.fr.up, b: p.Block, idx: p.Idx, failed: n.fr.call})
+					}
+					break
+				}
+			}
+			if s.target(n.fr, in, n.via) {
+				return build(n)
+			}
+			if s.cutInstr != nil && s.cutInstr(n.fr, in) {
+				stopped = true
+				break
+			}
+			switch x := in.(type) {
+			case *ssa.Call:
+				if s.expand != nil && !s.expand(n.fr, x) {
+					continue
+				}
+				if sub := n.fr.enter(x); sub != nil {
+					push(n, cxNode{fr: sub, b: sub.fn.Blocks[0]})
+					stopped = true
+				}
+			case *ssa.Return:
+				stopped = true
+				if n.fr.up != nil && n.fr.call != nil {
+					p := after(n.fr.call)
+					push(n, cxNode{fr: n.fr.up, b: p.Block, idx: p.Idx})
+				}
+			case *ssa.Panic:
+				stopped = true
+			}
+		}
+		if stopped {
+			continue
+		}
+		// the side of a test of the failed call's error on which it is nil is not taken
+		deadSucc := -1
+		if n.failed != nil {
+			if ifi := blockIf(n.b); ifi != nil {
+				a := condAtom(ifi.Cond)
+				if a.Op == token.EQL || a.Op == token.NEQ {
+					var ev ssa.Value
+					if isNilConst(a.Y) {
+						ev = a.X
+					} else if isNilConst(a.X) {
+						ev = a.Y
+					}
+					if cxIsErrOf(ev, n.failed) {
+						nilOnTrue := a.Op == token.EQL
+						if a.Neg {
+							nilOnTrue = !nilOnTrue
+						}
+						if nilOnTrue {
+							deadSucc = 0
+						} else {
+							deadSucc = 1
+						}
+					}
+				}
+			}
+		}
+		// a branch on a boolean phi of this very block is decided by the edge we came in through when that
+		// incoming value is a constant
+		forced := -1
+		if n.via != nil {
+			if ifi := blockIf(n.b); ifi != nil {
+				a := condAtom(ifi.Cond)
+				if phi, ok := a.X.(*ssa.Phi); ok && a.Op == token.ILLEGAL && phi.Block() == n.b {
+					for i, p := range n.b.Preds {
+						if p != n.via {
+							continue
+						}
+						if bv, isC := constBool(phi.Edges[i]); isC {
+							if a.Neg {
+								bv = !bv
+							}
+							if bv {
+								forced = 0
+							} else {
+								forced = 1
+							}
+						}
+					}
+				}
+			}
+		}
+		for i, sx := range n.b.Succs {
+			if forced >= 0 && i != forced && len(n.b.Succs) == 2 {
+				continue
+			}
+			if i == deadSucc && len(n.b.Succs) == 2 {
+				continue
+			}
+			e := Edge{n.b, i}
+			if s.cutEdge != nil && s.cutEdge(n.fr, e) {
+				continue
+			}
+			if s.cutVia != nil && n.via != nil && s.cutVia(n.fr, n.via, e) {
+				continue
+			}
+			push(n, cxNode{fr: n.fr, b: sx, via: n.b})
+		}
+	}
+	return nil
 }
